@@ -7,7 +7,7 @@ from .. import common, replay, tla
 from ..adapters import resources as ra
 
 SWITCHES = ('ImplicitMapsLinked', 'ClearAllLayers', 'SetItemPopsAllLayers', 'StaticSlotsUnmangled', 'CacheTestsFlag',
-            'WalkLinksOnlyCreated', 'FlagAfterLoad')
+            'WalkLinksOnlyCreated', 'FlagAfterLoad', 'HandleNamesCopied')
 
 INV_TREE = ['TypeOK', 'OnePlace', 'PathEquivalence', 'DefaultIffKeyError', 'HandleXorMap', 'LatestWins', 'BackLinks',
             'RootBackLinks']
@@ -29,7 +29,8 @@ def consts(maps=3, handles=2, depth=2, layers=2, gen=2, ops='Ops_Tree', builders
     """(constants, overrides) of one ResourcesMC instance.  Switches default to TRUE (= intended)."""
     c = {'Hd': _set('h%d' % i for i in range(1, handles + 1)), 'Names': _set('ab'), 'MaxDepth': depth,
          'MaxLayers': layers, 'MaxGen': gen, 'Phased': 'TRUE' if phased else 'FALSE',
-         'Staging': 'TRUE' if staging else 'FALSE', 'Again': 'TRUE' if again else 'FALSE', 'Resnap': 'TRUE' if resnap else 'FALSE', 'KeepSnap': keep_snap,
+         'Staging': 'TRUE' if staging else 'FALSE', 'Again': 'TRUE' if again else 'FALSE',
+         'Resnap': 'TRUE' if resnap else 'FALSE', 'KeepSnap': keep_snap,
          'Builders': _set(builders) if builders else None, 'Receivers': _set(receivers) if receivers else None}
     ov = {'MapOrder': 'MapOrder%d' % maps, 'Ops': ops, 'KindChoices': kinds, 'ClsChoices': cls}
     if ops.startswith('{'):         # a literal set is a cfg constant, a name is an override
